@@ -119,9 +119,126 @@ func wsJSONShapeCases(tier string, each func(c *WSCase)) {
 }
 
 func wsKey(c *WSCase) string {
-	s := c.Part + "|" + c.Subprotocol
+	s := c.Part + "|" + c.Subprotocol + "|" + c.Mode
 	for _, f := range c.Frames {
 		s += fmt.Sprintf("|%d:%s", f.Op, f.Data)
 	}
 	return s
+}
+
+// ---- (e) frames while an operation is active and producing results ---------------------------
+
+func subFrame(sub, id string, n int) WSFrame {
+	return WSFrame{Op: opText, Class: "ws-start:subscription", Data: wsText(startType(sub), id,
+		fmt.Sprintf(`{"query":"subscription{s(n:%d)}"}`, n))}
+}
+
+// activeAlphabet: text frames that may arrive while operation 1 is streaming. Control
+// frames are left out on purpose: gorilla answers them through WriteControl, which waits for
+// the write lock against a wall-clock deadline.
+func activeAlphabet(sub string) []WSFrame {
+	var al []WSFrame
+	add := func(class string, data []byte) { al = append(al, WSFrame{Op: opText, Class: class, Data: data}) }
+	if sub == "graphql-transport-ws" {
+		for _, typ := range []string{"ping", "pong"} {
+			for _, pk := range payloadKinds {
+				p := pk.text
+				if p == "VALID" {
+					p = `{"k":1}`
+				}
+				add("ws-"+typ+":payload-"+pk.name, wsText(typ, "", p))
+			}
+		}
+		add("ws-complete", wsText("complete", "1", ""))
+	} else {
+		add("ws-stop", wsText("stop", "1", ""))
+		add("ws-terminate", wsText("connection_terminate", "", ""))
+		add("ws:server-only-type", wsText("data", "1", ""))
+	}
+	f := subFrame(sub, "2", 2)
+	f.Class = "ws-start:second-subscription"
+	al = append(al, f)
+	add("ws:unknown-type", wsText("bogus", "1", ""))
+	add("ws:non-json-text", []byte("not json"))
+	return al
+}
+
+// neutral: the frame neither ends operation 1 nor closes the connection.
+func neutralActive(f WSFrame) bool {
+	c := f.Class
+	return len(c) >= 7 && (c[:7] == "ws-ping" || c[:7] == "ws-pong") || c == "ws-start:second-subscription"
+}
+
+func pingPayload(f WSFrame) (string, bool) {
+	if len(f.Class) < 7 || f.Class[:7] != "ws-ping" {
+		return "", false
+	}
+	var m struct {
+		Payload json.RawMessage `json:"payload"`
+	}
+	json.Unmarshal(f.Data, &m)
+	return string(m.Payload), true
+}
+
+func activeCase(sub, mode string, n int, group []WSFrame, rep int) *WSCase {
+	c := &WSCase{Part: "e", Subprotocol: sub, Mode: mode, Active: 1, Rep: rep, Frames: []WSFrame{
+		{Op: opText, Data: wsText("connection_init", "", ""), Class: "ws-init:payload-absent"}, subFrame(sub, "1", n)}}
+	c.Frames = append(c.Frames, group...)
+	allNeutral := true
+	for _, g := range group {
+		if !neutralActive(g) {
+			allNeutral = false
+		}
+		if p, ok := pingPayload(g); ok {
+			c.ExpPongs = append(c.ExpPongs, p)
+		}
+	}
+	if allNeutral {
+		c.ExpNext = n
+		c.CheckPongs = sub == "graphql-transport-ws"
+	}
+	return c
+}
+
+// wsActiveCases enumerates part (e).
+func wsActiveCases(tier string, each func(c *WSCase)) {
+	for _, sub := range subprotocols {
+		al := activeAlphabet(sub)
+		// stall: every single frame (thorough: every ordered pair) delivered while the first
+		// result of operation 1 is stuck in its socket write
+		for _, x := range al {
+			each(activeCase(sub, "stall", 3, []WSFrame{x}, 0))
+		}
+		if tier == "thorough" {
+			for _, x := range al {
+				for _, y := range al {
+					each(activeCase(sub, "stall", 3, []WSFrame{x, y}, 0))
+				}
+			}
+		}
+		// burst: free-running repetitions
+		reps := 5
+		if tier == "thorough" {
+			reps = 25
+		}
+		var bursts [][]WSFrame
+		second := subFrame(sub, "2", 5)
+		second.Class = "ws-start:second-subscription"
+		if sub == "graphql-transport-ws" {
+			ping := func(p string) WSFrame {
+				return WSFrame{Op: opText, Class: "ws-ping:burst", Data: wsText("ping", "", p)}
+			}
+			pong := WSFrame{Op: opText, Class: "ws-pong:burst", Data: wsText("pong", "", "")}
+			bursts = append(bursts,
+				[]WSFrame{ping(""), ping(`{"k":1}`), pong, ping(`"s"`), ping("5")},
+				[]WSFrame{second, ping(""), ping(`[]`), ping("null"), pong, ping(`{}`)})
+		} else {
+			bursts = append(bursts, []WSFrame{second})
+		}
+		for _, b := range bursts {
+			for r := 0; r < reps; r++ {
+				each(activeCase(sub, "burst", 5, b, r))
+			}
+		}
+	}
 }
